@@ -134,7 +134,7 @@ def run(pids, only=None, verbose=True):
     return results
 
 
-def run_benign(verbose=True):
+def run_benign(verbose=True, only=None):
     """behaviour-preserving edits (renames, reordering, logging): NO property may report anything"""
     sys.path.insert(0, VERIF)
     with open(os.path.join(VERIF, "mutants", "benign.json")) as f:
@@ -142,6 +142,8 @@ def run_benign(verbose=True):
     pids = sorted(f[:-3] for f in os.listdir(os.path.join(VERIF, "rules")) if f.startswith("C") and f.endswith(".py"))
     out = []
     for m in items:
+        if only and not m["name"].startswith(only):
+            continue
         d = make_scratch(extract.REPO)
         try:
             if not apply_edits(d, m["edits"]):
@@ -178,7 +180,7 @@ def run_benign(verbose=True):
 
 if __name__ == "__main__":
     if "--benign" in sys.argv:
-        res = run_benign()
+        res = run_benign(only=sys.argv[sys.argv.index("--only") + 1] if "--only" in sys.argv else None)
         bad = [r for r in res if r["status"] == "FALSE-ALARM"]
         print("benign edits: %d quiet, %d false alarms, %d skipped" % (sum(r["status"] == "quiet" for r in res), len(bad), sum(r["status"] == "skipped" for r in res)))
         sys.exit(1 if bad else 0)
